@@ -156,7 +156,18 @@ class Driver:
             elif op == "nextbar":
                 self.set_row(ev["row"])
             elif op == "read":
-                pass
+                if ev.get("v") == 2:
+                    # the read-only limit helpers are reads too: asking for a limit must not disturb what the views report afterwards
+                    for k in list(m._supplies.keys()):
+                        try:
+                            m.get_max_withdraw_amount(k)
+                        except Exception:
+                            pass                      # a raising helper is C11's matter (helper probes)
+                    for t in self.u.tokens:
+                        try:
+                            m.get_max_borrow_amount(tok[t])
+                        except Exception:
+                            pass
             else:
                 raise ValueError(op)
         except Exception as e:  # rejection = the public call raises
